@@ -321,6 +321,10 @@ def run(prog, rep, tier):
     rep.rule('FACT-search-flag', 'values left by a search loop are re-assigned on the not-found path')
     if check_search_flag(prog, rep, ['tenpy/linalg/np_conserved.py', 'tenpy/tools/math.py', 'tenpy/linalg/charges.py']) < 1:
         raise AnalysisError('FACT-search-flag: the block search of speigs not found')
+    rep.rule('FACT-fallback-forwards', 'the gesvd fallback of svd_robust.svd receives every option '
+             'the primary call receives')
+    if check_fallback_forwards(prog, rep) < 1:
+        raise AnalysisError('FACT-fallback-forwards: the two scipy.linalg.svd calls not found')
     rep.rule('FACT-full-unitary', 'svd(full_matrices=True): every charge sector of the legs gets a '
              'block in U / VH (identity where `a` stores none)')
     if check_full_unitary(prog, rep) < 2:
@@ -581,4 +585,45 @@ def check_full_unitary(prog, rep):
                               'blocks only; charge sectors of the leg without a stored block get '
                               'no block in `%s`, so the factor is zero there instead of the '
                               'identity and is not unitary' % (tgt, idx, data), st.lineno)
+    return n
+
+
+# ------------------------------------------------------------------ FACT-fallback-forwards
+def check_fallback_forwards(prog, rep):
+    """FACT-fallback-forwards: a fallback call of the same routine (scipy.linalg.svd with the other
+    LAPACK driver after 'gesdd' failed) must receive every option of the caller that the primary
+    call receives; an option dropped on the fallback path silently reverts to the library default
+    (full_matrices=True: U, VH of the wrong shape only when the fallback is taken)."""
+    m = prog.module('tenpy/linalg/svd_robust.py')
+    n = 0
+    for q, f in m.functions.items():
+        ps = set(params(f))
+        calls = {}
+        for c in ast.walk(f):
+            if isinstance(c, ast.Call) and call_name(c) and '.' in (unparse(c.func)):
+                calls.setdefault(unparse(c.func), []).append(c)
+        for callee, cs in calls.items():
+            if len(cs) < 2:
+                continue
+            cs.sort(key=lambda c: c.lineno)
+
+            def forwarded(c):
+                out = set()
+                for a in list(c.args) + [k.value for k in c.keywords]:
+                    for x in ast.walk(a):
+                        if isinstance(x, ast.Name) and x.id in ps:
+                            out.add(x.id)
+                return out
+            first = forwarded(cs[0])
+            for c in cs[1:]:
+                n += 1
+                miss = sorted(first - forwarded(c))
+                rep.instance('FACT-fallback-forwards', {'function': q, 'callee': callee,
+                                                        'primary': sorted(first),
+                                                        'missing_in_fallback': miss})
+                if miss:
+                    rep.violation('FACT-fallback-forwards', m, q, 'fallback-drops:' + ','.join(miss),
+                                  'the fallback call `%s` does not receive %s, which the primary '
+                                  'call passes on: on the fallback path these options revert to '
+                                  'the defaults of %s' % (key_text(c)[:60], miss, callee), c.lineno)
     return n
